@@ -143,4 +143,18 @@ theorem C07_signal_during_stop_extracted (viaAtexit wait : Bool) (s : Sig) (pr :
   rw [hseq]
   exact C07_signal_during_stop_served wait true true s pr earlier w q hsplit pre mid
 
+/-- whichever way the handler as extracted waits for its flush request — `flush_log(0)`, for ever (the current code), or
+    until the backend thread is gone (`flushEndsWhenBackendGone`, the candidate repair of F27) — at every point of
+    `stop()` before the backend thread's last look at the queues the outcome is the one of `C07_signal_during_stop_served`;
+    after that look it is F27 (`C07_signal_during_stop_after_last_look_hangs`) resp. `C07_F27_repair_never_hangs` -/
+theorem C07_signal_during_stop_extracted_flush (wait info crit : Bool) (s : Sig) (pr : Bool) (f : Fe) (pre mid : List Ev) :
+    let a := (CS.init f).run stopSeqCurrent wait pre
+    let b := a.run stopSeqCurrent wait mid
+    a.pc < 6 → b.serving = true →
+    signalDuringStopG Extracted.flushEndsWhenBackendGone wait info crit s pr a b = signalDuringStop wait info crit s pr a b := by
+  intro a b ha hb
+  cases Extracted.flushEndsWhenBackendGone
+  · rfl
+  · exact (C07_F27_repair_never_hangs wait info crit s pr f pre mid ha).2.1 hb
+
 end Obligations
